@@ -1298,6 +1298,25 @@ theorem tangent_surface_repaired_on_domain (pu pv d : ℕ) (Uu Uv : ℕ → F) (
           (findSpanLinearR pv Uv sv v) j)).evalEval u v :=
   tangentSurfaceR_true pu pv d Uu Uv su sv P hUu hUv hlen hP u v hu1 hu2 hv1 hv2 j
 
+/-- **`operations.tangent` of a RATIONAL surface through the repaired search** (op `tansr 1 …`: A3.6 as coded on the span
+    pair found by the repaired search, A4.4, entries `[0][0]`, `[1][0]`, `[0][1]`), closed domain, per direction `DomOk`
+    (last span possibly empty), positive weights: with `W`, `A` the weight and numerator polynomials of the span pair
+    found, `W(u,v) > 0`, `S = A / W`, `S_u = (A_u·W − A·W_u) / W²`, `S_v = (A_v·W − A·W_v) / W²`. -/
+theorem tangent_rational_surface_repaired_quotient_rule (pu pv d : ℕ) (Uu Uv : ℕ → F) (su sv : ℕ) (Pw : List (List F))
+    (hUu : DomOk pu Uu su) (hUv : DomOk pv Uv sv) (hlen : Pw.length = su * sv) (hP : NetOk (d+1) Pw)
+    (hwt : ∀ i, i < Pw.length → 0 < (ptsGet Pw i).getD d 0) (u v : F)
+    (hu1 : Uu pu ≤ u) (hu2 : u ≤ Uu su) (hv1 : Uv pv ≤ v) (hv2 : v ≤ Uv sv) (c : ℕ) (hc : c < d) (W A : F[X][Y])
+    (hW : W = surfSpanPoly pu pv Uu Uv sv Pw (findSpanLinearR pu Uu su u) (findSpanLinearR pv Uv sv v) d)
+    (hA : A = surfSpanPoly pu pv Uu Uv sv Pw (findSpanLinearR pu Uu su u) (findSpanLinearR pv Uv sv v) c) :
+    0 < W.evalEval u v ∧
+    (tangentSurface (ratSurfaceDers (surfaceDersA36R pu pv Uu Uv su sv Pw u v 1) 1)).1.getD c 0
+      = A.evalEval u v / W.evalEval u v ∧
+    (tangentSurface (ratSurfaceDers (surfaceDersA36R pu pv Uu Uv su sv Pw u v 1) 1)).2.1.getD c 0
+      = ((pderivU A).evalEval u v * W.evalEval u v - A.evalEval u v * (pderivU W).evalEval u v) / W.evalEval u v ^ 2 ∧
+    (tangentSurface (ratSurfaceDers (surfaceDersA36R pu pv Uu Uv su sv Pw u v 1) 1)).2.2.getD c 0
+      = ((pderivV A).evalEval u v * W.evalEval u v - A.evalEval u v * (pderivV W).evalEval u v) / W.evalEval u v ^ 2 :=
+  tangentSurfaceR_rational_quotient pu pv d Uu Uv su sv Pw hUu hUv hlen hP hwt u v hu1 hu2 hv1 hv2 c hc W A hW hA
+
 /-- **`operations.normal(surface, (u, v), normalize=False)` through the repaired search** (op `nrmsr`), non-rational 3-D
     surface, closed domain, per direction `DomOk`: the surface point and the cross product of the TRUE first partials of
     the span pair found, orthogonal to both. -/
